@@ -7,6 +7,7 @@ an ASSUMED single-statement engine), scope: Impl/C14Scope.lean.  What is and is 
 at the bottom (`C14_full_statement`).
 -/
 import SqlframeModel.Lemmas.C14Steps
+import SqlframeModel.Lemmas.C14Options
 namespace Sqlframe
 open Gen C14
 
@@ -231,6 +232,121 @@ theorem C14_path_modes_partial (m : Mode) (p : Name) (arg ms : Option String) (f
   | some T =>
     cases m <;> simp_all [specPath]
 
+/-! ### options of the file writers and readers
+
+What is decided here is sqlframe's part: which of the caller's options reach the engine's statement, under
+which key and with which text, and who wins when a key is given twice.  What DuckDB does with
+`COPY … (header False)` or `read_csv(…, header=False)` is the engine's; the check executes the option lists
+of the model and of the specification on DuckDB and compares files and tables. -/
+
+def C14.formats : List String := ["csv", "json", "parquet"]
+
+/-- `to_csv` renders exactly the options whose value is not None: `False`, `0` and `""` are values. -/
+theorem C14_tocsv_keeps (v : OptVal) : Gen.toCsvKeeps v = !v.isNone := by cases v <;> rfl
+
+/-- The regenerated forwarding tables of `write.csv / json / parquet`: every keyword of the `_write` call is
+    the format literal or a parameter under its own name, every parameter of the signature is forwarded. -/
+theorem C14_writer_forward_sound : ∀ fmt ∈ C14.formats,
+    callOk fmt (Gen.writerParams fmt) (Gen.writerCall fmt) = true := by decide +kernel
+
+/-- **Writer options.** For every format and every set of keyword arguments: the option list of the
+    `COPY … TO` statement consists of the format and of exactly the parameters the caller gave a value other
+    than None, each under its own name with `str(value)` — whatever the value's truthiness. -/
+theorem C14_writer_options (fmt : String) (hf : fmt ∈ C14.formats) (named : Opts) (k s : String) :
+    (k, s) ∈ writerRendered fmt named ↔
+      (k = "format" ∧ s = fmt) ∨
+      (k ∈ Gen.writerParams fmt ∧ (optLookup named k).isNone = false ∧ s = (optLookup named k).pyStr) :=
+  writer_options_generic fmt _ _ _ C14_tocsv_keeps (C14_writer_forward_sound fmt hf) named k s
+
+/-- the same, against the specification's list (as sets: the order of options means nothing to the engine) -/
+theorem C14_writer_options_spec (fmt : String) (hf : fmt ∈ C14.formats) (named : Opts) (x : String × String) :
+    x ∈ writerRendered fmt named ↔ x ∈ toCsvP (fun _ => true) (specWriterOpts fmt (Gen.writerParams fmt) named) := by
+  obtain ⟨k, s⟩ := x
+  rw [C14_writer_options fmt hf, mem_specWriterOpts]
+
+/-- an explicitly given falsy value reaches the engine (`header=False`, `quoteAll=False`, `compression=""` …) -/
+theorem C14_writer_falsy_forwarded (fmt : String) (hf : fmt ∈ C14.formats) (p : String) (hp : p ∈ Gen.writerParams fmt)
+    (named : Opts) (v : OptVal) (hv : optLookup named p = v) (hnn : v.isNone = false) :
+    (p, v.pyStr) ∈ writerRendered fmt named := by
+  rw [C14_writer_options fmt hf]
+  exact Or.inr ⟨hp, by rw [hv]; exact hnn, by rw [hv]⟩
+
+/-- The regenerated reader decisions: call options are merged after the stored ones (front end and `load`),
+    only None is filtered, every parameter of the front end is forwarded under its own name. -/
+theorem C14_reader_flags_sound : ∀ fmt ∈ C14.formats, RFlagsOk (genRFlags fmt) (Gen.readerParams fmt) := by
+  intro fmt hf
+  simp only [C14.formats, List.mem_cons, List.not_mem_nil, or_false] at hf
+  rcases hf with rfl | rfl | rfl
+  all_goals
+    refine ⟨by decide, by decide, ?_, ?_⟩
+    · intro v; cases v <;> rfl
+    · intro c hc
+      simp only [genRFlags, Gen.readerCall, String.reduceEq, if_true, if_false, Option.some.injEq, reduceCtorEq] at hc
+      all_goals (subst hc; exact ⟨by unfold selfForward; decide +kernel, by decide +kernel⟩)
+
+theorem C14_options_merge_sound : Gen.optionsMerge = [.state, .call] ∧ Gen.optionSets = true ∧ Gen.readerStateFresh = true := by decide
+
+/-- **Reader state.** After any sequence of `.option(k, v)` / `.options(**kv)` calls on a fresh reader, the
+    stored value of every key is the last one given for it. -/
+theorem C14_reader_state (calls : List RCall) (k : String) :
+    optLookup (readerState calls) k = lastSet calls k := by
+  simp only [readerState, C14_options_merge_sound.1, optLookup, lastSet, (readerState_lookup calls k).2]
+
+/-- **Reader options.** For every format, spelling (`read.csv(…)` or `read.load(…, format=…)`), sequence of
+    builder calls and keyword arguments, with or without a schema: for every key that `load` does not consume
+    itself, the option list of `read_<fmt>(…)` carries the key iff the specification's value is not None —
+    the call's value when one was given, else the last stored one — rendered `str(value)`; falsy values included. -/
+theorem C14_reader_options (fmt : String) (hf : fmt ∈ C14.formats) (via : Via) (calls : List RCall) (named : Opts)
+    (hnamed : NamedOk (genRFlags fmt) (Gen.readerParams fmt) via named)
+    (sc : Option String) (inferred : String) (k s : String) (hk : k ∉ Gen.loadPops) (hc : k ≠ "columns") :
+    (k, s) ∈ readerRendered fmt via calls named sc inferred ↔
+      (specReaderVal calls named k).isNone = false ∧ s = (specReaderVal calls named k).pyStr := by
+  have hst := readerState_lookup calls k
+  have hfin := readerFinal_lookup (genRFlags fmt) _ (C14_reader_flags_sound fmt hf) via
+    (readerStateP [.state, .call] calls) named hst.1 hnamed sc inferred k hk hc
+  have hval : optLookup (readerFinalP (genRFlags fmt) via (readerStateP Gen.optionsMerge calls) named sc inferred) k =
+      specReaderVal calls named k := by
+    rw [C14_options_merge_sound.1]
+    simp only [optLookup, hfin, hst.2, specReaderVal, lastSet]
+    cases hg : dictGet named k with
+    | none => simp
+    | some v =>
+      have hv := dictGet_named_notNone named hnamed.nodup hnamed.noNone k v hg
+      cases v <;> simp_all [OptVal.isNone]
+  have hkeep : ∀ v, (genRFlags fmt).toCsvKeeps v = !v.isNone := C14_tocsv_keeps
+  unfold readerRendered readerRenderedP
+  rw [mem_toCsvP_dict _ hkeep _ (nodup_readerFinalP _ _ _ _ _ _) k s, hval]
+
+/-- the list the driver prints as the specification is that specification -/
+theorem C14_reader_spec_list (calls : List RCall) (named : Opts) (sc : Option String) (columns : Bool)
+    (k : String) (v : OptVal) (hk : k ∉ Gen.loadPops) (hc : k ≠ "columns") :
+    (k, v) ∈ specReaderOpts Gen.loadPops columns calls named sc ↔ specReaderVal calls named k = v ∧ v.isNone = false :=
+  mem_specReaderOpts _ _ _ _ _ k v hk hc
+
+/-- an option of the call overrides a stored one, whatever was stored and however often -/
+theorem C14_reader_call_overrides_state (fmt : String) (hf : fmt ∈ C14.formats) (via : Via) (calls : List RCall) (named : Opts)
+    (hnamed : NamedOk (genRFlags fmt) (Gen.readerParams fmt) via named) (sc : Option String) (inferred : String)
+    (k : String) (v : OptVal) (hk : k ∉ Gen.loadPops) (hc : k ≠ "columns") (hv : (k, v) ∈ named) :
+    (k, v.pyStr) ∈ readerRendered fmt via calls named sc inferred := by
+  rw [C14_reader_options fmt hf via calls named hnamed sc inferred k _ hk hc]
+  have hg := (mem_iff_dictGet named k v hnamed.nodup).1 hv
+  have hn := hnamed.noNone (k, v) hv
+  have : specReaderVal calls named k = v := by
+    simp only [specReaderVal, optLookup, hg, Option.getD_some]
+    cases v <;> simp_all [OptVal.isNone]
+  rw [this]
+  exact ⟨hn, rfl⟩
+
+/-- a csv read with a schema names the columns and their types to the engine -/
+theorem C14_reader_columns (via : Via) (calls : List RCall) (named : Opts) (c inferred : String) :
+    ("columns", c) ∈ readerRendered "csv" via calls named (some c) inferred := by
+  have hkeep : ∀ v, (genRFlags "csv").toCsvKeeps v = !v.isNone := C14_tocsv_keeps
+  unfold readerRendered readerRenderedP
+  rw [mem_toCsvP_dict _ hkeep _ (nodup_readerFinalP _ _ _ _ _ _)]
+  have : dictGet (readerFinalP (genRFlags "csv") via (readerStateP Gen.optionsMerge calls) named (some c) inferred) "columns"
+      = some (.str c) := loadPass_columns _ _ _ _ (by decide) (by decide)
+  simp [optLookup, this, OptVal.isNone, OptVal.pyStr]
+
 /-! ### counterexamples for the scope hypotheses (witnesses replayed on the real code by the check) -/
 
 def C14.fr1 : Frame := { cols := ["x", "s"], tys := [.int, .str], rows := [[.int 1, .str "a"], [.null, .str "b"]] }
@@ -272,6 +388,13 @@ theorem C14_cex_pathModeFromState : Gen.pathMode none (some "overwrite") ≠ "ov
     pathStep "p" none (some "overwrite") C14.fr2 [("p", C14.fr1.table)] ≠
       specPath .overwrite "p" C14.fr2 [("p", C14.fr1.table)] := by decide
 
+/-- `df.write.csv(p, sep="|")`: the model (like the code) pastes the value into the statement as it is, `sep |`,
+    where the specification has the string value `|` (handed to the engine as the SQL string `'|'`); `|` is not a bare word, so DuckDB cannot read the statement. -/
+theorem C14_cex_optionValueQuoted :
+    writerRendered "csv" [("sep", .str "|")] = [("format", "csv"), ("sep", "|")] ∧
+    specWriterOpts "csv" (Gen.writerParams "csv") [("sep", .str "|")] = [("format", .str "csv"), ("sep", .str "|")] ∧
+    ¬ H_optionValueQuoted [.str "|"] := by decide
+
 /-! ### non-vacuity: concrete histories meet every hypothesis -/
 
 def C14.exOps : List Op :=
@@ -294,6 +417,16 @@ example : C14.fr3.cols.Perm ["x", "y"] := by decide
 example : writerState [.byName, .mode (some "append")] = { byName := true, mode := some "append" } := by decide
 example : H_pathModeFromState Gen.pathMode (some "ignore") (some "overwrite") ∧ D_fileAppend .ignore := by decide
 
+example : ("header", "False") ∈ writerRendered "csv" [("header", .bool false), ("compression", .str "gzip")] := by decide
+example : writerRendered "csv" [("header", .bool false)] = [("format", "csv"), ("header", "False")] := by decide
+example : NamedOk (genRFlags "csv") (Gen.readerParams "csv") .method [("header", .bool false)] :=
+  ⟨by decide, by decide, fun _ _ => by decide⟩
+example : readerRendered "csv" .method [.option "header" (.bool true), .option "compression" (.str "gzip")]
+    [("header", .bool false)] (some "{'x': 'bigint'}") "" =
+    [("header", "False"), ("compression", "gzip"), ("columns", "{'x': 'bigint'}")] := by decide
+example : H_optionValueQuoted [.str "gzip", .bool false, .int 0, .str "true"] := by decide
+example : specReaderVal [.option "header" (.bool true), .options [("header", .str "false")]] [] "header" = .str "false" := by decide
+
 /-! ### the full statement, for the record
 
 C14 as given: every write followed by the matching read gives back the frame (rows, names, types),
@@ -304,7 +437,12 @@ It is NOT a theorem of the model on the pinned tree: `C14_cex_*` refute it for a
 append-by-name, byName without a cached schema and a stale schema cache; `C14_history` proves it
 under the named hypotheses.
 
+The option theorems (`C14_writer_options`, `C14_reader_options`, …) decide sqlframe's part of a write / read with
+options: which options reach the statement, with which text, and who wins — not what the engine then does.
+
 NOT decided by any theorem here, only exercised by the check against the running code:
+* what DuckDB does with an option of `COPY … TO` / `read_<format>` (header, compression, sep, …; which ones it
+  rejects): the option lists of the model and of the specification are executed on DuckDB itself;
 * that csv / json / parquet files written by DuckDB's `COPY … TO` read back (through `read_<format>`)
   to the same values and types — that round trip is DuckDB's;
 * file-level atomicity of a failing `COPY … TO` (DuckDB writes `tmp_<file>` and renames) — the model's
